@@ -317,8 +317,31 @@ Definition settled_acks (t : list tev) : bool :=
 Definition c07_ok (h : histcase) : bool :=
   let t := trace_of h in
   no_panic t && fold_trace (rx_step t) (mkRx [] [] false) [] t && acked_before_next t t [] && settled_acks t.
-Definition c04_ok (h : histcase) : bool :=
+(* C04 after the broker started a NEW session (CONNACK without session-present): every
+   exactly-once PUBLISH of that connection which the client answered with PUBREC there is a
+   new message of the new session, whatever markers the Persistence still holds, and has to
+   be returned (finding F25: stale markers make the client swallow it). *)
+Definition sp0_conn (t : list tev) (c : N) : bool :=
+  match firstn 4 (in_bytes c t) with [32; 2; 0; 0] => true | _ => false end.
+Definition new_session_fresh (t : list tev) (c : N) : bool :=
+  if sp0_conn t c then
+    let ins := fst (packets_of (skipn 4 (in_bytes c t))) in
+    let outs := map (fun x => (fst (fst (fst x)), snd (fst (fst x)))) (out_packets t) in
+    let dl := delivered_msgs t in
+    forallb (fun p => match p with
+                      | PPublish _ 2 _ tp (Some id) pl =>
+                        negb (existsb (fun cp => (fst cp =? c) && match snd cp with PPubrec id' => id' =? id | _ => false end) outs)
+                        || existsb (fun d => list_eqb (fst d) tp && list_eqb (snd d) pl) dl
+                        || existsb (fun e => match e with
+                                             | TRet _ OpRead (RetBig tp' size) _ _ _ => list_eqb tp' tp && (size =? len pl)
+                                             | _ => false end) t
+                      | _ => true end) ins
+  else true.
+Definition c04_core (h : histcase) : bool :=
   let t := trace_of h in c07_ok h && forallb (answered t) (conns t).
+Definition c04_ok (h : histcase) : bool :=
+  let t := trace_of h in c04_core h && forallb (new_session_fresh t) (conns t).
+Definition f25_match (h : histcase) : bool := c04_core h && negb (c04_ok h).
 
 (* C01/C02/C05/C18 "pending transfers are retransmitted on every connection, before anything
    else": when the call that dialed connection c returns with the client online, every genuine
@@ -394,7 +417,13 @@ Definition hist_run (ok : histcase -> bool) (l : list histcase) : list N * list 
   (idx_filter hist_agree l 0, idx_filter ok l 0, []).
 Definition c01_run := hist_run c01_ok.
 Definition c03_run := hist_run c03_ok.
-Definition c04_run := hist_run c04_ok.
+Fixpoint idx_known25 (l : list histcase) (i : N) : list (N * N) :=
+  match l with
+  | [] => []
+  | x :: r => if f25_match x then (i, 25) :: idx_known25 r (i + 1) else idx_known25 r (i + 1)
+  end.
+Definition c04_run (l : list histcase) : list N * list N * list (N * N) :=
+  (idx_filter hist_agree l 0, idx_filter c04_ok l 0, idx_known25 l 0).
 Definition c07_run := hist_run c07_ok.
 Definition all_ok (h : histcase) : bool := c08_ok h && c04_ok h && c01_ok h.
 Definition all_run := hist_run all_ok.
@@ -702,9 +731,27 @@ Definition pubp_step (t : list tev) (mx : N * N) (m : list (N * list N)) (e : te
   | TRet _ (OpPubP _ _ _ _) _ _ _ _ | TRet _ (OpAdopt _ _) _ _ _ _ => tx_step t mx m e
   | _ => (mx, true)
   end.
+(* a waiting request whose packet went out (bytes were written by the call that issued it) does
+   not complete with one of the classes documented as "not submitted" *)
+Definition cw_step (t : list tev) (s : N * list N) (m : list (N * list N)) (e : tev) : (N * list N) * bool :=
+  match e with
+  | TRet i o r done _ _ =>
+    let '(next, wrote) := s in
+    let ok := forallb (fun d => let '(rid, er, _) := d in
+                                negb (mem rid wrote && any_bit er [cls_closed; cls_down; cls_max; cls_canceled; cls_deny])) done in
+    match o with
+    | OpAdopt _ _ => match r with RetAdopt _ 0 => ((0, []), ok) | _ => (s, ok) end
+    | _ =>
+      if spawn_op o then
+        ((next + 1, match r with RetParked => if wrote_in_call t i then next :: wrote else wrote | _ => wrote end), ok)
+      else (s, ok)
+    end
+  | _ => (s, true)
+  end.
+
 Definition c14_ok (h : histcase) : bool :=
   let t := trace_of h in
-  no_panic t && forallb (c14_ret t) t
+  no_panic t && forallb (c14_ret t) t && fold_trace (cw_step t) (0, []) [] t
   && (rewritten t || fold_trace (pubp_step t) (s_max1 (cfg_of h), s_max2 (cfg_of h)) [] t)
   && own_exchange t.
 
@@ -746,7 +793,28 @@ Definition big_bounded (t : list tev) : bool :=
 Definition violation_in (ps : list packet) (tail : list N) : bool :=
   existsb (fun p => match p with
                     | PConnect _ _ _ _ _ _ | PSubscribe _ _ | PUnsubscribe _ _ | PPingreq | PDisconnect => true
+                    | PConnack _ _ => true                            (* a second CONNACK *)
+                    (* acknowledgements with an identifier outside the space this client uses for that kind *)
+                    | PPuback id => negb ((32768 <=? id) && (id <? 49152))
+                    | PPubrec id | PPubcomp id => negb (49152 <=? id)
+                    | PSuback id codes => negb ((24576 <=? id) && (id <? 32768))
+                                          || existsb (fun cd => negb ((cd <? 3) || (cd =? 128))) codes
+                    | PUnsuback id => negb ((16384 <=? id) && (id <? 24576))
                     | _ => false end) ps.
+
+Definition is_violation (p : packet) : bool := violation_in [p] [].
+(* nothing that follows a violation on its connection is handed to the application *)
+Fixpoint after_first_violation (ps : list packet) : list packet :=
+  match ps with
+  | [] => []
+  | p :: r => if is_violation p then r else after_first_violation r
+  end.
+Definition no_delivery_after_violation (t : list tev) (c : N) : bool :=
+  let ps := fst (packets_of (skipn 4 (in_bytes c t))) in
+  let dl := delivered_msgs t in
+  forallb (fun p => match p with
+                    | PPublish _ _ _ tp _ pl => negb (existsb (fun d => list_eqb (fst d) tp && list_eqb (snd d) pl) dl)
+                    | _ => true end) (after_first_violation ps).
 
 Definition c13_ok (h : histcase) : bool :=
   let t := trace_of h in
@@ -757,7 +825,7 @@ Definition c13_ok (h : histcase) : bool :=
        (* once the broker sent something only a client may send, nothing more is delivered from that
           connection and it is closed *)
        let '(ps, tail) := packets_of (skipn 4 (in_bytes c t)) in
-       if violation_in ps tail then closed_conn t c else true) (conns t).
+       if violation_in ps tail then closed_conn t c && no_delivery_after_violation t c else true) (conns t).
 
 (* ------------------------------------------------------------------ *)
 (* C16 / C02: adoption                                                  *)
